@@ -252,8 +252,9 @@ func (p *Policy) sanitize(r io.Reader, w io.Writer) error {
 		case html.CommentToken:
 
 			// Comments are ignored by default
-			if p.allowComments {
-				// But if allowed then write the comment out as-is
+			if p.allowComments && !skipElementContent {
+				// But if allowed then write the comment out as-is, unless it
+				// is part of the content of an element that is being skipped
 				if _, err := buff.WriteString(token.String()); err != nil {
 					return err
 				}
